@@ -235,7 +235,7 @@ func c03GenToken(r *verifh.Rng) verifh.Section {
 
 func c03Gen(r *verifh.Rng) []verifh.Section {
 	var secs []verifh.Section
-	np, nt := verifh.Scale(40, 500), verifh.Scale(50, 600)
+	np, nt := verifh.Scale(40, 400), verifh.Scale(50, 450)
 	for i := 0; i < np; i++ {
 		secs = append(secs, c03GenPeriod(r))
 	}
